@@ -61,6 +61,13 @@ def scenarios():
     out.append(('imports interleaved with declarations', [('util.pn', UTIL), ('mid.pn', 'pub fn midf() -> i32\n{\n\treturn: 3\n}\n'),
                 ('main.pn', 'import "util.pn";\n\nconst K: i32 = 1;\n\nimport "mid.pn";\n\nfn main() -> i32\n{\n\treturn: pubf() + midf() + K\n}\n')],
                 {'util.pn': 'accept', 'mid.pn': 'accept', 'main.pn': 'accept'}))
+    for empty, what in (('', 'an empty file'), ('// nothing here yet\n', 'a file with only a comment')):
+        out.append(('%s among the modules: everyone still gets exactly its own imports' % what, [('notes.pn', empty), ('util.pn', UTIL), ('main.pn', user(['util.pn'], '\treturn: pubf() + PUBC\n')),
+                    ('other.pn', user([], '\treturn: pubf()\n'))], {'notes.pn': 'accept', 'util.pn': 'accept', 'main.pn': 'accept', 'other.pn': 'reject'}))
+    out.append(('a module that imports nothing, given between an importer and its import, sees nothing of either', [('util.pn', UTIL),
+                ('bystander.pn', 'fn pubf() -> i32\n{\n\treturn: 5\n}\n\nfn own() -> i32\n{\n\treturn: pubf()\n}\n'),
+                ('main.pn', user(['util.pn'], '\treturn: pubf()\n')), ('top.pn', user(['main.pn'], '\treturn: 1\n'))],
+                {'util.pn': 'accept', 'bystander.pn': 'accept', 'main.pn': 'accept', 'top.pn': 'accept'}))
     out.append(('mutual imports', [('a.pn', 'import "b.pn";\n\npub fn fa() -> i32\n{\n\treturn: 1\n}\n'), ('b.pn', 'import "a.pn";\n\npub fn fb() -> i32\n{\n\treturn: fa()\n}\n')],
                 {'a.pn': 'accept', 'b.pn': 'accept'}))
     return out
